@@ -421,7 +421,62 @@ class Interp(object):
             return r
         for t in s.targets:
             self.assign(t, v, st, fr, s)
+            if isinstance(t, ast.Name):
+                m = self.minlen_of(s.value, st)
+                if m:
+                    self._set_minlen(t.id, m, st)
+                lo = self._len_alias(s.value)
+                if lo is not None:
+                    st.top()["#lenof:" + t.id] = lo
         return st, set()
+
+    def _len_alias(self, v):
+        """v = len(X) [+/- const]  ->  (norm(X), offset)"""
+        def is_len(n):
+            return isinstance(n, ast.Call) and isinstance(n.func, ast.Name) and \
+                n.func.id == "len" and len(n.args) == 1 and \
+                isinstance(n.args[0], (ast.Name, ast.Attribute))
+        if is_len(v):
+            return (norm(v.args[0]), 0)
+        if isinstance(v, ast.BinOp) and is_len(v.left) and \
+                isinstance(v.right, ast.Constant) and isinstance(v.right.value, int):
+            if isinstance(v.op, ast.Sub):
+                return (norm(v.left.args[0]), -v.right.value)
+            if isinstance(v.op, ast.Add):
+                return (norm(v.left.args[0]), v.right.value)
+        return None
+
+    def minlen_of(self, node, st):
+        """Lower bound on len() of the value of an expression node, from the
+        repository's own idioms (0 = nothing known)."""
+        if isinstance(node, ast.Call):
+            fn = node.func
+            name = fn.attr if isinstance(fn, ast.Attribute) else getattr(fn, "id", "")
+            if name == "decode" and isinstance(fn, ast.Attribute) and \
+                    isinstance(fn.value, ast.Call) and \
+                    getattr(fn.value.func, "id", "") in ("DerSequence", "DerSetOf"):
+                for kw in node.keywords:
+                    if kw.arg == "nr_elements":
+                        v = self.ev(kw.value, st)
+                        self._diverged = None
+                        if isinstance(v, int):
+                            return v
+                        if isinstance(v, (tuple, list, range)) and v and \
+                                all(isinstance(x, int) for x in v):
+                            return min(v)
+                return 0
+            if name in ("split", "rsplit", "splitlines") and isinstance(fn, ast.Attribute):
+                return 1 if name != "splitlines" else 0
+            if name in ("long_to_bytes",):
+                return 1
+            if name in ("bytearray", "bytes", "tobytes", "memoryview") and \
+                    isinstance(fn, ast.Name) and len(node.args) == 1:
+                return self.minlen_of(node.args[0], st)
+        if isinstance(node, ast.Name) or (isinstance(node, ast.Attribute) and
+                                          isinstance(node.value, ast.Name)):
+            f = st.top().get("#minlen:" + norm(node))
+            return f if isinstance(f, int) else 0
+        return 0
 
     def st_AnnAssign(self, s, st, fr):
         if s.value is None:
@@ -455,6 +510,8 @@ class Interp(object):
                 self.inject_hits[key] = self.inject_hits.get(key, 0) + 1
                 v = self.inject[key]
             st.top()[t.id] = v
+            st.top().pop("#minlen:" + t.id, None)
+            st.top().pop("#lenof:" + t.id, None)
         elif isinstance(t, (ast.Tuple, ast.List)):
             if isinstance(v, (tuple, list)) and len(v) == len(t.elts) and \
                     not any(isinstance(e, ast.Starred) for e in t.elts):
@@ -467,6 +524,7 @@ class Interp(object):
                     self.assign(e, UNK, st, fr, stmt)
         elif isinstance(t, ast.Attribute):
             base = self.ev(t.value, st)
+            st.top().pop("#minlen:" + norm(t), None)
             if isinstance(base, AObj):
                 st.heap.setdefault(base.ident, {})[t.attr] = v
                 self.event("store_attr", t.attr, stmt, args=(base, v))
@@ -577,6 +635,12 @@ class Interp(object):
                 else:
                     pass
             return
+        if isinstance(test, ast.Compare) and len(test.ops) == 1:
+            self._refine_len(test, val, st)
+        if val and (isinstance(test, ast.Name) or (
+                isinstance(test, ast.Attribute) and isinstance(test.value, ast.Name))):
+            # `if x:` -> non-empty when x is a sequence
+            self._set_minlen(norm(test), 1, st)
         if isinstance(test, ast.BoolOp):
             if isinstance(test.op, ast.And) and val:
                 for v in test.values:
@@ -585,6 +649,121 @@ class Interp(object):
                 for v in test.values:
                     self.refine(v, False, st, fr)
             return
+
+    def _set_minlen(self, name, n, st):
+        key = "#minlen:" + name
+        cur = st.top().get(key)
+        if not isinstance(cur, int) or cur < n:
+            st.top()[key] = n
+
+    def _refine_len(self, test, val, st):
+        """len(NAME) <op> CONST  (or CONST <op> len(NAME)) under truth `val`."""
+        l, r, op = test.left, test.comparators[0], test.ops[0]
+
+        def is_len(n):
+            if isinstance(n, ast.Name) and isinstance(
+                    st.top().get("#lenof:" + n.id), tuple):
+                return True
+            return _is_len(n)
+
+        def len_arg(n):
+            if isinstance(n, ast.Name):
+                return st.top().get("#lenof:" + n.id)[0]
+            return norm(n.args[0])
+
+        def len_off(n):
+            if isinstance(n, ast.Name):
+                return st.top().get("#lenof:" + n.id)[1]
+            return 0
+
+        def _is_len(n):
+            return isinstance(n, ast.Call) and isinstance(n.func, ast.Name) and \
+                n.func.id == "len" and len(n.args) == 1 and (
+                    isinstance(n.args[0], ast.Name) or (
+                        isinstance(n.args[0], ast.Attribute) and
+                        isinstance(n.args[0].value, ast.Name)))
+        flip = {ast.Lt: ast.Gt, ast.Gt: ast.Lt, ast.LtE: ast.GtE, ast.GtE: ast.LtE,
+                ast.Eq: ast.Eq, ast.NotEq: ast.NotEq}
+        if is_len(r) and not is_len(l):
+            l, r = r, l
+            if type(op) not in flip:
+                return
+            op = flip[type(op)]()
+        if not is_len(l):
+            return
+        c = self.ev(r, st)
+        self._diverged = None
+        if type(op) in (ast.In, ast.NotIn):
+            pass
+        elif not isinstance(c, int) or isinstance(c, bool):
+            # len(X) == a*m + b with an unknown integer m: on the path where
+            # the equality holds, a*m + b = len(X) >= 0 bounds it from below
+            eq_holds = (isinstance(op, ast.Eq) and val) or (isinstance(op, ast.NotEq) and not val)
+            lb = self._linear_lower_bound(r, st) if eq_holds else None
+            if lb:
+                self._set_minlen(len_arg(l), lb - len_off(l), st)
+            return
+        else:
+            c = c - len_off(l)
+        name = len_arg(l)
+        t = type(op)
+        if t in (ast.In, ast.NotIn):
+            holds_in = (t is ast.In) == bool(val)
+            if holds_in and isinstance(c, (tuple, list, range, frozenset)) and c \
+                    and all(isinstance(x, int) for x in c):
+                self._set_minlen(name, min(c), st)
+            return
+        # normalise to the relation that HOLDS
+        if not val:
+            neg = {ast.Lt: ast.GtE, ast.GtE: ast.Lt, ast.Gt: ast.LtE, ast.LtE: ast.Gt,
+                   ast.Eq: ast.NotEq, ast.NotEq: ast.Eq}
+            if t not in neg:
+                return
+            t = neg[t]
+        if t is ast.GtE:
+            self._set_minlen(name, c, st)
+        elif t is ast.Gt:
+            self._set_minlen(name, c + 1, st)
+        elif t is ast.Eq:
+            self._set_minlen(name, c, st)
+        elif t is ast.NotEq:
+            cur = st.top().get("#minlen:" + name)
+            if c == 0:
+                self._set_minlen(name, 1, st)
+            elif isinstance(cur, int) and cur == c:
+                self._set_minlen(name, c + 1, st)
+
+    def _linear_lower_bound(self, node, st):
+        """node = a*NAME + b (a > 0, ints): smallest non-negative value."""
+        def lin(n):
+            v = self.ev(n, st)
+            self._diverged = None
+            if isinstance(v, int) and not isinstance(v, bool):
+                return (0, v)
+            if isinstance(n, ast.Name):
+                return (1, 0)
+            if isinstance(n, ast.BinOp):
+                a, b = lin(n.left), lin(n.right)
+                if a is None or b is None:
+                    return None
+                if isinstance(n.op, ast.Add):
+                    return (a[0] + b[0], a[1] + b[1])
+                if isinstance(n.op, ast.Sub):
+                    return (a[0] - b[0], a[1] - b[1])
+                if isinstance(n.op, ast.Mult):
+                    if a[0] == 0:
+                        return (a[1] * b[0], a[1] * b[1])
+                    if b[0] == 0:
+                        return (a[0] * b[1], a[1] * b[1])
+            return None
+        r = lin(node)
+        if r is None or r[0] <= 0:
+            return None
+        a, b = r
+        m = -((b) // a)          # ceil(-b / a)
+        if a * m + b < 0:
+            m += 1
+        return a * m + b
 
     def _refine_set(self, target, v, st):
         if isinstance(target, ast.Name) and target.id in st.top():
@@ -977,7 +1156,23 @@ class Interp(object):
         is_and = isinstance(n.op, ast.And)
         cur = None
         unknown_seen = []
+        saved = dict((k, v) for k, v in st.top().items()
+                     if isinstance(k, str) and k.startswith("#minlen:"))
+        try:
+            return self._boolop(n, st, is_and)
+        finally:
+            for k in [k for k in st.top() if isinstance(k, str) and k.startswith("#minlen:")]:
+                del st.top()[k]
+            st.top().update(saved)
+
+    def _boolop(self, n, st, is_and):
+        cur = None
+        unknown_seen = []
         for i, e in enumerate(n.values):
+            if i > 0:
+                # short-circuit: the previous operands were all true (and) /
+                # all false (or) when this one is evaluated
+                self.refine(n.values[i - 1], is_and, st, self.frames[-1])
             v = self.ev(e, st)
             t = truth(v)
             if t is None:
@@ -1029,7 +1224,30 @@ class Interp(object):
             step = self.ev(n.slice.step, st) if n.slice.step is not None else None
             return models.do_slice(base, lo, hi, step)
         k = self.ev(n.slice, st)
+        self.check_index(n, base, k, st)
         return models.do_index(base, k)
+
+    def check_index(self, n, base, k, st):
+        """X4: constant index on a sequence -> IndexError unless the length
+        is known / proven by a dominating len() guard."""
+        if not (isinstance(k, int) and not isinstance(k, bool)):
+            return
+        if isinstance(base, dict) or isinstance(base, (AObj, AMod, AClass)):
+            return
+        need = k + 1 if k >= 0 else -k
+        ln = None
+        if isinstance(base, (bytes, str, tuple, list, bytearray, range)):
+            ln = len(base)
+        elif isinstance(base, ABytes) and base.n is not None:
+            ln = base.n
+        if ln is not None:
+            if ln < need:
+                self.event("index_error", norm(n), n)
+                self._diverged = self.do_raise("IndexError", st, n)
+            return
+        proven = self.minlen_of(n.value, st) >= need
+        if not proven:
+            self.event("index_unproven", norm(n), n, extra=need)
 
     def ex_Attribute(self, n, st):
         base = self.ev(n.value, st)
